@@ -156,6 +156,10 @@ def run_case(case):
                     alt = float(altitude_from_pressure_isa_bada4(np.array([450.0 * 100.0]))[0])
             pt = GroundTrack.Point(Location(longitude=lon, latitude=lat), track_az)
             given = (deg(c['h']) if c['given'] else None) if explicit else (heading if with_time else None)
+            # Wind.tla HeadingForms: an explicit heading is an angle - the same direction written in [0, 360) or in
+            # (-360, 0] (e.g. -90 for 270) is the same heading; every second explicit-heading case uses the negative form
+            if explicit and given is not None and given > 0 and (c['h'] + c['th']) % 2 == 1:
+                given -= 360.0
             label = f'heading {heading:.4f} deg (sin, cos = {s5}/5, {c5}/5; given: {given}, track azimuth {track_az:.4f}), TAS {c["tas"]}, {"with" if with_time else "without"} time axis, case {c}'
             try:
                 gs = w.get_ground_speed(time=when, gt_point=pt, altitude=alt, true_airspeed=float(c['tas']), azimuth=given)
